@@ -243,7 +243,8 @@ func (o *qOracle) validate(step int, prev, next Snap, r resolvedOp, res QRes) *v
 			return f
 		}
 	case "reopen":
-		genericTag = "C01,C02"
+		// closing and reopening the database changes nothing: no message lost (C01, C02), no lease ended (C03)
+		genericTag = "C01,C02,C03"
 	}
 
 	// Everything not explained by the op's primary effect must be a legal side effect.
